@@ -17,7 +17,9 @@ C05 line protocol.  One line = one whole case.
     ok1/2   0/1: the caller saw no exception from the first save / the retry
     trace   `-` or `,`-separated observations, one per counted call:
               A            another process creates the destination (just before the next call)
-              F<l><i><u>   the call reported an error (three digits 0/1: listed step, injected, unlink of the part file)
+              F<l><i><u>   the call reported an error (three digits 0/1: listed step, injected, unlink of the part file);
+                           a failure that was NOT injected may carry `:<event>` = what the call would have been - the
+                           abstract file system must refuse that event too (`nat=`)
               X<l>         a file.close() that reported an error but closed
               n            a successful call without effect (probe, fdopen, unrelated path, close of a closed object)
               o<excl><samedir>:<mode>   part file created        c<mode>   chmod / fchmod of the part file
@@ -25,9 +27,10 @@ C05 line protocol.  One line = one whole case.
               R  L  U                   rename-or-replace part->dest, link part->dest, unlink of the part file
               T  W<hex>  D  ?           truncation of / write to / unlink of the destination, unclassified mutating call
 
-  Output: `<first> | <retry>`, each half `acc=<code> exec=<ok|stuck@k> dest=<-|mode:hex> part=<-|mode:hex>`
+  Output: `<first> | <retry>`, each half `acc=<code> exec=<ok|stuck@k> nat=<ok|bad@k> dest=<-|mode:hex> part=<-|mode:hex>`
     code 0 = `C05.Accept` holds; 9@k = the automaton refuses observation k; 1-4 = end condition 1-4 fails
     exec  = `C05.replay` of the trace on the abstract file system (the retry starts from the first save's result)
+    nat   = every failure the real file system produced on its own is a failure of the abstract one as well
 
 2. THE REFERENCE TRANSLITERATION (statistics only, never an alarm): `REF ` followed by
 
@@ -154,12 +157,41 @@ def parseObs? (w : String) : Option Obs :=
   | 'W' :: hx => (bytesOfHex? (if hx.isEmpty then "-" else String.ofList hx)).map (fun b => Obs.ok (.writeDest b))
   | _ => none
 
-def parseTrace? (s : String) : Option (List Obs) :=
+/-- an observation, and for a failure that was not injected the event the call would have been -/
+def parseObsX? (w : String) : Option (Obs × Option Ev) :=
+  match splitOnChar w ':' with
+  | [f, e] =>
+    if f.startsWith "F" then
+      match parseObs? f, parseObs? e with
+      | some o, some (.ok ev) => some (o, some ev)
+      | _, _ => none
+    else (parseObs? w).map (fun o => (o, none))
+  | [f, e1, e2] =>      -- the event token itself contains a colon (o11:420)
+    if f.startsWith "F" then
+      match parseObs? f, parseObs? (e1 ++ ":" ++ e2) with
+      | some o, some (.ok ev) => some (o, some ev)
+      | _, _ => none
+    else none
+  | _ => (parseObs? w).map (fun o => (o, none))
+
+def parseTrace? (s : String) : Option (List (Obs × Option Ev)) :=
   if s = "-" then some [] else
   (splitOnChar s ',').foldr (fun w acc =>
-    match acc, parseObs? w with
+    match acc, parseObsX? w with
     | some l, some o => some (o :: l)
     | _, _ => none) (some [])
+
+/-- index of the first natural failure that the abstract file system would have let through -/
+def natCheck : M → List (Obs × Option Ev) → Nat → Option Nat
+  | _, [], _ => none
+  | m, (o, x) :: t, k =>
+    let bad := match x with
+      | some ev => (match m.fs.step ev with | .ok _ => true | .error _ => false)
+      | none => false
+    if bad then some k else
+    match replayStep m o with
+    | some m' => natCheck m' t (k + 1)
+    | none => none
 
 def showAcc (cfg : Cfg) (raises ok : Bool) (content : Bytes) (fs : FS) (t : List Obs) : String :=
   match acceptCode cfg raises ok content fs.umask fs.destMode t with
@@ -169,13 +201,17 @@ def showAcc (cfg : Cfg) (raises ok : Bool) (content : Bytes) (fs : FS) (t : List
   | c => toString c
 
 /-- one half of the answer, and the file system the next save starts from -/
-def showHalf (cfg : Cfg) (raises ok : Bool) (content : Bytes) (fs : FS) (e : Nat) (t : List Obs) : String × Option FS :=
+def showHalf (cfg : Cfg) (raises ok : Bool) (content : Bytes) (fs : FS) (e : Nat) (tx : List (Obs × Option Ev)) : String × Option FS :=
+  let t := tx.map (·.1)
   let acc := showAcc cfg raises ok content fs t
+  let nat := match natCheck (M.start fs e) tx 0 with
+    | some k => s!"bad@{k}"
+    | none => "ok"
   match replay (M.start fs e) t with
-  | some m => (s!"acc={acc} exec=ok dest={showFile m.fs m.fs.dir.dest} part={showFile m.fs m.fs.dir.part}", some m.fs)
+  | some m => (s!"acc={acc} exec=ok nat={nat} dest={showFile m.fs m.fs.dir.dest} part={showFile m.fs m.fs.dir.part}", some m.fs)
   | none =>
     let k := (replayStuck (M.start fs e) t 0).getD 0
-    (s!"acc={acc} exec=stuck@{k} dest=? part=?", none)
+    (s!"acc={acc} exec=stuck@{k} nat={nat} dest=? part=?", none)
 
 def handleAcc (ws : List String) : String :=
   match ws with
